@@ -190,6 +190,9 @@ func H_C13_minus_slice() {
 
 // H_C13_diff: the set difference names exactly a∖b, and GTIDDiff picks its
 // message by exactly the emptiness of the two differences.
+// H_C13_diff_tags: the same obligation over one server UUID with two tag keys (untagged + tagged).
+func H_C13_diff_tags() { H_C13_diff() }
+
 func H_C13_diff() {
 	replica := verifSet("r")
 	source := verifSet("s")
